@@ -697,6 +697,43 @@ func checkC18(c *Ctx, r *Report) {
 	if nClose == 0 {
 		r.undecided("R1", "close(done)", "-", "no completion site (close of a done channel) found in package transactions")
 	}
+	// the completion callback (a function-typed field of a struct that also holds the done channel) is called nowhere
+	// but at a completion site: a second caller runs it twice, or while the transaction is still running
+	for _, fn := range c.allRepoFuncs() {
+		closes := false
+		allInstrs(fn, func(i ssa.Instruction) {
+			if isCloseCall(i) && isDoneChan(i.(ssa.CallInstruction).Common().Args[0]) {
+				closes = true
+			}
+		})
+		if closes {
+			continue
+		}
+		allInstrs(fn, func(j ssa.Instruction) {
+			f, ok := dynCallOfField(j)
+			if !ok || f == "retry-callback" {
+				return
+			}
+			fa := j.(ssa.CallInstruction).Common().Value.(*ssa.UnOp).X.(*ssa.FieldAddr)
+			st := structOf(fa.X.Type())
+			if st == nil {
+				return
+			}
+			hasDone := false
+			for k := 0; k < st.NumFields(); k++ {
+				if ch, ok := st.Field(k).Type().Underlying().(*types.Chan); ok {
+					if s, ok := ch.Elem().Underlying().(*types.Struct); ok && s.NumFields() == 0 {
+						hasDone = true
+					}
+				}
+			}
+			if !hasDone {
+				return
+			}
+			r.fn(fn)
+			r.bad("R1", fnKey(fn)+":completion callback "+f+"() outside the completion site", c.instrPos(j), "the completion callback is called by a function that does not complete the transaction (no close of done, no finished test): it runs a second time when the transaction completes, and the first run happens while the exchange is still live")
+		})
+	}
 	// every other store to an error field / close in wrappers
 	for _, fn := range append(c.repoFuncs("transactions"), append(c.repoFuncs("client"), c.repoFuncs("gateway")...)...) {
 		allInstrs(fn, func(i ssa.Instruction) {
